@@ -1098,6 +1098,12 @@ class Interp:
                             s = s.bind(h.name, Opaque('exc:' + str(out.value), (), 'obj'))
                         s = s.note(('caught', str(out.value), h.lineno))
                         for o2 in self.exec_block(h.body, s):
+                            if h.name and h.name in o2.state.env:
+                                # `except E as name`: the name is deleted when the handler
+                                # ends, also when an outer binding of it existed before
+                                st_ = o2.state.copy()
+                                del st_.env[h.name]
+                                o2 = Outcome(o2.kind, o2.value, st_)
                             yield from run_final(o2)
                         break
                 if not handled:
@@ -1178,7 +1184,11 @@ class Interp:
                         raise Unsupported('for-loop over a generator with side effects at %s'
                                           % self.cur.loc(node))
                     if len(items) <= getattr(self.hooks, 'unroll_cap', 64):
-                        yield from self.unroll_for(node, items, 0, s1)
+                        # a generator object held in a variable is consumed by the loop: a
+                        # second loop over the same variable continues where this one stopped
+                        gname = node.iter.id if isinstance(node.iter, ast.Name) and \
+                            node.iter.id in s1.env else None
+                        yield from self.unroll_for(node, items, 0, s1, gname)
                     else:
                         yield from self.loop_havoc(node, s1, iter_value=it)
                 continue
@@ -1211,7 +1221,19 @@ class Interp:
                 return list(got)
         return None
 
-    def unroll_for(self, node, items, idx, st):
+    def unroll_for(self, node, items, idx, st, gen_name=None):
+        if gen_name is not None:
+            st = st.bind(gen_name, Tup(tuple(items[idx + 1:]), 'tuple'))
+        if idx >= len(items) and items:
+            tnames = [n.id for n in ast.walk(node.target) if isinstance(n, ast.Name)]
+            final = {n: st.env[n] for n in tnames if n in st.env}
+            if final and any(isinstance(n, (ast.Lambda, ast.FunctionDef)) for b in node.body
+                             for n in ast.walk(b)):
+                st = st.copy()
+                for k_, v_ in list(st.env.items()):
+                    st.env[k_] = self.rebind_closures(v_, final)
+                for k_, v_ in list(st.fields.items()):
+                    st.fields[k_] = self.rebind_closures(v_, final)
         if idx >= len(items):
             if node.orelse:
                 yield from self.exec_block(node.orelse, st)
@@ -1221,7 +1243,7 @@ class Interp:
         for s in self.assign(node.target, items[idx], st):
             for out in self.exec_block(node.body, s):
                 if out.kind in ('fall', 'continue'):
-                    yield from self.unroll_for(node, items, idx + 1, out.state)
+                    yield from self.unroll_for(node, items, idx + 1, out.state, gen_name)
                 elif out.kind == 'break':
                     yield Outcome('fall', None, out.state)
                 else:
@@ -1849,13 +1871,16 @@ class Interp:
                     yield self._symbolic_comp(node, gen, it, s), s
                     continue
                 saved = dict(s.env)
+                tnames = [n.id for n in ast.walk(gen.target) if isinstance(n, ast.Name)]
                 for vals, s2 in self._comp_items(node, gen, items, 0, s):
                     if s2.raised:
                         yield None, s2
                         continue
                     s3 = s2.copy()
+                    # the comprehension variables as the last iteration left them (late binding)
+                    final = {n: s2.env[n] for n in tnames if n in s2.env}
                     s3.env = dict(saved)
-                    yield Tup(tuple(vals), 'list'), s3
+                    yield self.rebind_closures(Tup(tuple(vals), 'list'), final), s3
             return
         yield Opaque('comp@%d' % node.lineno, (), 'list'), st
 
@@ -2022,6 +2047,24 @@ class Interp:
 
     def ev_Lambda(self, node, st):
         yield self.make_closure(node, 'lambda@%d' % node.lineno, st), st
+
+    @staticmethod
+    def rebind_closures(v, final):
+        """Python closures see variables, not values: a lambda / nested def created inside a
+        loop or comprehension and called afterwards reads the loop variable's *last* value.
+        Returns v with the captured loop variables of every closure inside it rebound."""
+        if isinstance(v, Closure):
+            if any(n in final for n, _ in v.captured):
+                return Closure(v.fn, v.label, tuple((n, final.get(n, w)) for n, w in v.captured),
+                               v.definer, v.defaults)
+            return v
+        if isinstance(v, Tup):
+            items = tuple(Interp.rebind_closures(x, final) for x in v.items)
+            return v if all(a is b for a, b in zip(items, v.items)) else Tup(items, v.kind)
+        if isinstance(v, DictV):
+            items = tuple((k, Interp.rebind_closures(w, final)) for k, w in v.items)
+            return v if all(a[1] is b[1] for a, b in zip(items, v.items)) else DictV(items)
+        return v
 
     def make_closure(self, node, label, st):
         from .model import FuncInfo
